@@ -1,14 +1,91 @@
 (* C19 — proofs about Model/Render.v *)
 From PG Require Import Lib.Strs Model.Sites Model.Diff Model.Render Proofs.Sites Proofs.Diff.
+From PG Require Model.Parser Proofs.Parser.
 From Coq Require Import Permutation.
 
 (* ================================================================================================
    (1) keys *)
+(* ---------- str(int(s)) = s for canonical decimal strings: the decimal printer [Diff.dec] inverts [dec_value] ---------- *)
+Fixpoint pow10 (f : nat) : N := match f with O => 1 | S f' => 10 * pow10 f' end.
+Fixpoint pow2 (f : nat) : N := match f with O => 1 | S f' => 2 * pow2 f' end.
+
+Lemma pow2_le_pow10 : forall f, pow2 f <= pow10 f.
+Proof. induction f as [|f IH]; cbn [pow2 pow10]; lia. Qed.
+
+Lemma pow10_pos : forall f, 0 < pow10 f.
+Proof. induction f as [|f IH]; cbn [pow10]; lia. Qed.
+
+Lemma pos_lt_pow2 : forall p, N.pos p < pow2 (Pos.size_nat p).
+Proof.
+  induction p as [p IH|p IH|]; cbn [Pos.size_nat pow2].
+  - replace (N.pos p~1) with (2 * N.pos p + 1) by reflexivity. lia.
+  - replace (N.pos p~0) with (2 * N.pos p) by reflexivity. lia.
+  - reflexivity.
+Qed.
+
+Lemma lt_pow10_size : forall n, 0 < n -> n < pow10 (N.size_nat n).
+Proof.
+  intros [|p] H; [lia|]. cbn [N.size_nat].
+  pose proof (pos_lt_pow2 p). pose proof (pow2_le_pow10 (Pos.size_nat p)). lia.
+Qed.
+
+Lemma dec_fuel_enough : forall f1 f2 n,
+  n < pow10 (S f1) -> n < pow10 (S f2) -> dec_fuel (S f1) n = dec_fuel (S f2) n.
+Proof.
+  induction f1 as [|f1 IH]; intros f2 n H1 H2.
+  - cbn [pow10] in H1. cbn [dec_fuel]. assert (E : n <? 10 = true) by (apply N.ltb_lt; lia). rewrite E. reflexivity.
+  - cbn [dec_fuel]. destruct (n <? 10) eqn:E; [reflexivity|]. apply N.ltb_ge in E.
+    destruct f2 as [|f2]; [cbn [pow10] in H2; lia|].
+    f_equal. apply IH.
+    + apply N.div_lt_upper_bound; [lia|]. exact H1.
+    + apply N.div_lt_upper_bound; [lia|]. exact H2.
+Qed.
+
+Lemma dec_snoc : forall n d, 0 < n -> d < 10 -> dec (10 * n + d) = dec n ++ [48 + d].
+Proof.
+  intros n d Hn Hd. unfold dec at 1. set (m := 10 * n + d).
+  assert (Hm : 10 <= m) by (unfold m; lia).
+  cbn [dec_fuel]. assert (E : m <? 10 = false) by (apply N.ltb_ge; exact Hm). rewrite E.
+  assert (Hq : m / 10 = n) by (symmetry; apply (N.div_unique m 10 n d); [exact Hd | unfold m; lia]).
+  assert (Hr : m mod 10 = d) by (symmetry; apply (N.mod_unique m 10 n d); [exact Hd | unfold m; lia]).
+  rewrite Hq, Hr. f_equal.
+  pose proof (lt_pow10_size m ltac:(lia)) as Bm.
+  destruct (N.size_nat m) as [|k] eqn:Ek; [cbn [pow10] in Bm; lia|].
+  unfold dec. apply dec_fuel_enough.
+  - lia.
+  - pose proof (lt_pow10_size n Hn). cbn [pow10]. pose proof (pow10_pos (N.size_nat n)). lia.
+Qed.
+
+Lemma dec_small : forall d, d < 10 -> dec d = [48 + d].
+Proof. intros d H. unfold dec. cbn [dec_fuel]. assert (E : d <? 10 = true) by (apply N.ltb_lt; exact H). rewrite E. reflexivity. Qed.
+
+Lemma dec_value_digits : forall r acc, 0 < acc -> forallb is_digit r = true -> dec (dec_value r acc) = dec acc ++ r.
+Proof.
+  induction r as [|c r IH]; intros acc Ha Hd; cbn [dec_value].
+  - rewrite app_nil_r. reflexivity.
+  - cbn [forallb] in Hd. apply andb_true_iff in Hd. destruct Hd as [Hc Hr].
+    unfold is_digit in Hc. apply andb_true_iff in Hc. destruct Hc as [C1 C2].
+    apply N.leb_le in C1. apply N.leb_le in C2.
+    rewrite IH; [|lia|exact Hr]. rewrite dec_snoc by lia.
+    rewrite <- app_assoc. cbn [app]. replace (48 + (c - 48)) with c by lia. reflexivity.
+Qed.
+
+Theorem dec_roundtrip : forall s, is_canonical_dec s = true -> dec (dec_value s 0) = s.
+Proof.
+  intros [|c r] H; [discriminate|]. cbn [is_canonical_dec] in H.
+  destruct (c =? 48) eqn:E0.
+  - apply N.eqb_eq in E0. subst c. destruct r; [reflexivity | discriminate].
+  - apply N.eqb_neq in E0. apply andb_true_iff in H. destruct H as [H Hr]. apply andb_true_iff in H. destruct H as [C1 C2].
+    apply N.leb_le in C1. apply N.leb_le in C2.
+    cbn [dec_value]. replace (10 * 0 + (c - 48)) with (c - 48) by lia.
+    rewrite dec_value_digits; [|lia|exact Hr]. rewrite dec_small by lia.
+    cbn [app]. replace (48 + (c - 48)) with c by lia. reflexivity.
+Qed.
+
 Lemma key_str_retype : forall k, key_str (retype_key k) = key_str k.
 Proof.
   intros [s|n]; simpl; [|reflexivity].
-  destruct (is_canonical_dec s && str_eqb (dec (dec_value s 0)) s) eqn:E; [|reflexivity].
-  apply andb_true_iff in E. destruct E as [_ E]. apply str_eqb_eq in E. exact E.
+  destruct (is_canonical_dec s) eqn:E; [|reflexivity]. simpl. apply dec_roundtrip. exact E.
 Qed.
 
 Lemma flat_map_ext_in' : forall {A B} (f g : A -> list B) l,
@@ -28,12 +105,6 @@ Proof.
   destruct (is_method m); [|reflexivity]. f_equal. f_equal.
   unfold codes_of. rewrite map_map. apply map_ext. apply key_str_retype.
 Qed.
-
-(* the redundant conjunct of [retype_key] holds on the whole status-code domain and beyond: 0..999 *)
-Fixpoint upto (n : nat) : list N := match n with O => [] | S m => upto m ++ [N.of_nat m] end.
-Lemma dec_roundtrip_0_999 :
-  forallb (fun n => is_canonical_dec (dec n) && str_eqb (dec (dec_value (dec n) 0)) (dec n) && (dec_value (dec n) 0 =? n)) (upto 1000) = true.
-Proof. vm_compute. reflexivity. Qed.
 
 Definition s_200 : str := [50;48;48].
 Definition s_get : str := [103;101;116].
@@ -217,3 +288,83 @@ Lemma graph_guards_examples :
   guard_acyclic graph_F02c = false /\ guard_no_allof_cycle graph_F02c = false /\
   guard_acyclic graph_dag = true /\ guard_no_allof_cycle graph_dag = true.
 Proof. repeat split; vm_compute; reflexivity. Qed.
+
+(* ================================================================================================
+   (5) order of components.schemas: corollary of C02's fidelity theorem (Model/Parser.v, Proofs/Parser.v by the
+   builder of C02).  On the core fragment with acyclic references every declared schema's model has exactly the
+   declared fields, and the declared fields are a function of the document as a finite map: hence the models'
+   fields are the same for every declaration order. *)
+Section SchemaOrder.
+  Import Model.Parser Proofs.Parser.
+
+  Lemma alookup_In_nodup : forall {V} (S : list (str * V)) m v, NoDup (map fst S) -> In (m, v) S -> alookup m S = Some v.
+  Proof.
+    induction S as [|[k w] S IH]; intros m v Hnd Hin; [contradiction|]. simpl in *. inversion Hnd as [|? ? Hk Hr]; subst.
+    destruct Hin as [Hin|Hin].
+    - inversion Hin; subst. rewrite str_eqb_refl. reflexivity.
+    - destruct (str_eqb m k) eqn:E; [|apply IH; assumption].
+      apply str_eqb_eq in E. subst k. exfalso. apply Hk. apply in_map_iff. exists (m, v). auto.
+  Qed.
+
+  Lemma alookup_Some_In : forall {V} (S : list (str * V)) m v, alookup m S = Some v -> In (m, v) S.
+  Proof.
+    induction S as [|[k w] S IH]; intros m v H; simpl in *; [discriminate|].
+    destruct (str_eqb m k) eqn:E; [apply str_eqb_eq in E; inversion H; subst; auto | right; apply IH; exact H].
+  Qed.
+
+  Lemma alookup_perm : forall {V} (S S' : list (str * V)) m,
+    NoDup (map fst S) -> Permutation S S' -> alookup m S = alookup m S'.
+  Proof.
+    intros V S S' m Hnd Hp.
+    assert (Hnd' : NoDup (map fst S')) by (eapply Permutation_NoDup; [apply Permutation_map; exact Hp | exact Hnd]).
+    destruct (alookup m S) as [v|] eqn:E.
+    - symmetry. apply alookup_In_nodup; [exact Hnd'|]. eapply Permutation_in; [exact Hp | apply alookup_Some_In; exact E].
+    - destruct (alookup m S') as [v'|] eqn:E'; [|reflexivity].
+      pose proof (Permutation_in _ (Permutation_sym Hp) (alookup_Some_In _ _ _ E')) as Hin.
+      rewrite (alookup_In_nodup _ _ _ Hnd Hin) in E. discriminate.
+  Qed.
+
+  Lemma decl_members_ext : forall (r1 r2 : node -> option dmember) l acc,
+    (forall x, r1 x = r2 x) -> decl_members r1 l acc = decl_members r2 l acc.
+  Proof.
+    intros r1 r2 l. induction l as [|x l IH]; intros acc H; simpl; [reflexivity|].
+    rewrite H. destruct (r2 x); [apply IH; exact H | reflexivity].
+  Qed.
+
+  Lemma decl_node_ext : forall (S S' : spec), (forall m, alookup m S = alookup m S') ->
+    forall f nd, decl_node f S nd = decl_node f S' nd.
+  Proof.
+    intros S S' H. induction f as [|f IH]; intro nd; simpl; [reflexivity|].
+    destruct nd; try reflexivity.
+    - rewrite H. destruct (alookup _ S'); [apply IH | reflexivity].
+    - apply decl_members_ext. exact IH.
+  Qed.
+
+  Lemma declared_f_perm : forall (S S' : spec) f n,
+    NoDup (map fst S) -> Permutation S S' -> declared_f f S n = declared_f f S' n.
+  Proof.
+    intros S S' f n Hnd Hp. unfold declared_f.
+    rewrite (alookup_perm S S' n Hnd Hp). destruct (alookup n S'); [|reflexivity].
+    rewrite (decl_node_ext S S' (fun m => alookup_perm S S' m Hnd Hp)). reflexivity.
+  Qed.
+
+  (* C19_schema_order: for two declaration orders of the same schemas (core fragment, acyclic, within the depth
+     limit - the hypotheses of C02_partial for each order), every declared schema has a genuine model in both runs
+     and the two models have the same fields (JSON key, required flag, type reference), in the same order *)
+  Theorem schema_order_partial : forall md (S S' : spec) rk rk',
+    Permutation S S' -> NoDup (map fst S) ->
+    core_spec S = true -> ranked_b rk S = true -> depth_ok rk S md = true ->
+    core_spec S' = true -> ranked_b rk' S' = true -> depth_ok rk' S' md = true ->
+    forall n, In n (map fst S) ->
+    exists e e', alookup n (parsed (parse_doc md S)) = Some e /\ alookup n (parsed (parse_doc md S')) = Some e' /\
+                 flags_of e = 0 /\ flags_of e' = 0 /\ fields_of e = fields_of e'.
+  Proof.
+    intros md S S' rk rk' Hp Hnd C1 R1 D1 C2 R2 D2 n Hn.
+    assert (Hn' : In n (map fst S')) by (eapply Permutation_in; [apply Permutation_map; exact Hp | exact Hn]).
+    destruct (C02_acyclic md S rk C1 R1 D1 n Hn) as [e [E1 [F1 [f G1]]]].
+    destruct (C02_acyclic md S' rk' C2 R2 D2 n Hn') as [e' [E2 [F2 [f' G2]]]].
+    exists e, e'. repeat split; try assumption.
+    rewrite <- (declared_f_perm S S' f' n Hnd Hp) in G2.
+    pose proof (declared_f_functional _ _ _ _ _ _ G1 G2) as E. exact E.
+  Qed.
+End SchemaOrder.
